@@ -18,7 +18,7 @@ func init() { props["C07"] = hmain.Prop{Level: "fault_enumeration", Run: c07, Re
 // c07Case: a membership operation on a populated stable ring with a set of injected RPC faults.
 type c07Fault struct {
 	Method string `json:"method"`
-	Occ    int    `json:"occ"`  // occurrence of the method during the operation (from 1)
+	Occ    int    `json:"occ"`  // occurrence of the method during the operation (from 1); 0 = every occurrence (a persistent fault)
 	Mode   int    `json:"mode"` // 1 = fail before delivery, 2 = deliver, then lose the response
 	Kind   string `json:"kind"` // "deadline" | "opaque"
 }
@@ -27,6 +27,9 @@ func (f c07Fault) String() string {
 	m := "before"
 	if f.Mode == 2 {
 		m = "lost-response"
+	}
+	if f.Occ == 0 {
+		return fmt.Sprintf("%s#all:%s:%s", f.Method, m, f.Kind)
 	}
 	return fmt.Sprintf("%s#%d:%s:%s", f.Method, f.Occ, m, f.Kind)
 }
@@ -81,7 +84,7 @@ func c07Run(cs c07Case) c07Out {
 	w.Net.Decide = func(c *chordlib.Call) chordlib.FaultMode {
 		occ[c.Method]++
 		for _, ft := range cs.Faults {
-			if ft.Method == c.Method && ft.Occ == occ[c.Method] {
+			if ft.Method == c.Method && (ft.Occ == occ[c.Method] || ft.Occ == 0) {
 				chordlib.InjectedDeadline = ft.Kind == "deadline"
 				return chordlib.FaultMode(ft.Mode)
 			}
@@ -142,7 +145,7 @@ func c07Scenarios(thorough bool) []c07Case {
 
 func c07(c *report.Check) {
 	scns := c07Scenarios(c.Thorough())
-	var cases []c07Case
+	var cases, persistent []c07Case
 	for _, s := range scns {
 		base := c07Run(s)
 		if base.viol != "" {
@@ -174,6 +177,23 @@ func c07(c *report.Check) {
 		for _, ft := range singles {
 			cases = append(cases, c07Case{Ring: s.Ring, Op: s.Op, Faults: []c07Fault{ft}})
 		}
+		// persistent faults: a membership RPC that fails on every attempt until the retries give up
+		for _, m := range []string{"RequestToJoin", "FinishJoin", "RequestToLeave", "FinishLeave", "Import"} {
+			used := false
+			for _, cl := range base.calls {
+				if cl.Method == m {
+					used = true
+				}
+			}
+			if !used {
+				continue
+			}
+			for _, mode := range []int{1, 2} {
+				for _, kind := range []string{"deadline", "opaque"} {
+					persistent = append(persistent, c07Case{Ring: s.Ring, Op: s.Op, Faults: []c07Fault{{m, 0, mode, kind}}})
+				}
+			}
+		}
 		if c.Thorough() {
 			// pairs of faults on the membership RPCs (second fault may hit a retry, whose
 			// occurrence numbers extend beyond the fault-free run)
@@ -201,6 +221,10 @@ func c07(c *report.Check) {
 	failingSingle := map[string]bool{}
 	subsumed := 0
 	sort.SliceStable(cases, func(i, j int) bool { return len(cases[i].Faults) < len(cases[j].Faults) })
+	// persistent faults run after the single faults of their scenario have been judged
+	nsingle := len(cases)
+	cases = append(cases, persistent...)
+	_ = nsingle
 	for _, cs := range cases {
 		o := c07Run(cs)
 		mu.Lock()
@@ -213,10 +237,11 @@ func c07(c *report.Check) {
 			cls = o.class
 		}
 		dist.See(fmt.Sprintf("%s|%s|%s|%s", strings.SplitN(cs.Op, ":", 2)[0], methodsOf(cs.Faults), modesOf(cs.Faults), cls), map[string]any{"ring": cs.Ring, "op": cs.Op, "faults": fs, "result": o.opResult, "verdict": cls})
-		if o.viol != "" && len(cs.Faults) == 1 {
+		isPersistent := len(cs.Faults) == 1 && cs.Faults[0].Occ == 0
+		if o.viol != "" && len(cs.Faults) == 1 && !isPersistent {
 			failingSingle[fmt.Sprintf("%v|%s|%s:%d", cs.Ring, cs.Op, cs.Faults[0].Method, cs.Faults[0].Mode)] = true
 		}
-		if o.viol != "" && len(cs.Faults) > 1 {
+		if o.viol != "" && (len(cs.Faults) > 1 || isPersistent) {
 			// a fault set that contains a single fault which already fails on its own is the
 			// same finding as that single fault (minimal failing set), not a new one
 			minimal := true
@@ -248,7 +273,7 @@ func c07(c *report.Check) {
 	}
 	c.Set("fault_bound", fb)
 	c.Set("multi_fault_failures_subsumed_by_a_failing_single_fault", subsumed)
-	c.Set("rule", fmt.Sprintf("for %d membership operations (join into / leave from populated stable rings of real nodes behind the RPC view model) a fault-free run numbers every inter-node call; then every (method, occurrence) x {fail before delivery, deliver then lose the response} x {deadline error, opaque error} is injected singly%s; after the operation returns (retries included) faults stop, the ring quiesces, and every remaining node must be Active and every acknowledged key must read back through every remaining node; class = (operation, faulted methods, modes, verdict)", len(scns), map[bool]string{true: ", and all pairs over the membership RPCs (occurrences 1..3, both modes)", false: ""}[c.Thorough()]))
+	c.Set("rule", fmt.Sprintf("for %d membership operations (join into / leave from populated stable rings of real nodes behind the RPC view model) a fault-free run numbers every inter-node call; then every (method, occurrence) x {fail before delivery, deliver then lose the response} x {deadline error, opaque error} is injected singly, and each membership RPC (RequestToJoin, FinishJoin, RequestToLeave, FinishLeave, Import) additionally fails on EVERY attempt (persistent fault, both modes and kinds)%s; after the operation returns (retries included) faults stop, the ring quiesces, and every remaining node must be Active and every acknowledged key must read back through every remaining node; class = (operation, faulted methods, modes, verdict)", len(scns), map[bool]string{true: ", and all pairs over the membership RPCs (occurrences 1..3, both modes)", false: ""}[c.Thorough()]))
 	c.Set("samples", dist.Samples)
 	c.Set("exhaustive", true)
 	c.Assume("faults are injected only while the operation (with its retries) runs; maintenance afterwards is fault-free", "retry waits are instantaneous; no maintenance runs between retries")
